@@ -47,6 +47,8 @@ func GenDaemon(prop string, seed uint64, tier string) *DaemonScenario {
 	}
 	use["clients"] = true
 	switch prop {
+	case "C13":
+		return genCrash(seed, tier)
 	case "C14", "C15":
 		sc.Mode = "fuzz"
 		sc.N = r.Range(3, 4)
@@ -234,4 +236,50 @@ func ShrinkDaemon(sc *DaemonScenario) []*DaemonScenario {
 		out = append(out, c)
 	}
 	return out
+}
+
+
+// genCrash: the four deterministic scripts of C13 (production, resharing as a remaining
+// member, leaving, joining); the seed enumerates (script, operation index, mode).
+func genCrash(seed uint64, tier string) *DaemonScenario {
+	variants := []string{"production", "reshare-remain", "reshare-leave", "reshare-join"}
+	modes := []struct {
+		m   string
+		pct int
+	}{{"before", 0}, {"after", 0}, {"torn", 0}, {"torn", 50}, {"torn", 97}}
+	v := int(seed % uint64(len(variants)))
+	idx := int(seed / uint64(len(variants)))
+	mode := modes[idx%len(modes)]
+	sc := &DaemonScenario{Engine: "daemon", Prop: "C13", Seed: uint64(v), Mode: variants[v]}
+	sc.N, sc.T, sc.Scheme, sc.PeriodS, sc.CatchupS, sc.Backend = 3, 2, SchemeNames[0], 1, 1, "bolt"
+	if v%2 == 1 {
+		sc.Scheme = SchemeNames[1]
+	}
+	sc.Net = NetPlan{BaseUs: 1000, JitterUs: 2000}
+	sc.PhaseS, sc.KickoffS = 2, 1
+	sc.GenesisInS = 2 + sc.KickoffS + 3*sc.PhaseS + 3
+	rounds := 5
+	sc.Crash = &CrashPlan{Node: 1, AtIndex: idx / len(modes), Mode: mode.m, TornPct: mode.pct, DownMs: int64((idx%2)*3000 + 200)}
+	switch variants[v] {
+	case "reshare-remain":
+		sc.Reshares = []ResharePlan{{AtRound: 2, NewT: 2}}
+		rounds = 2 + 12 + sc.KickoffS + 3*sc.PhaseS + 3
+	case "reshare-leave":
+		sc.N, sc.T = 4, 3
+		sc.Reshares = []ResharePlan{{AtRound: 2, NewT: 2, Leave: []int{1}}}
+		rounds = 2 + 12 + sc.KickoffS + 3*sc.PhaseS + 3
+	case "reshare-join":
+		sc.Extra = 1
+		sc.Crash.Node = 3
+		sc.Reshares = []ResharePlan{{AtRound: 2, NewT: 3, Join: []int{3}}}
+		rounds = 2 + 12 + sc.KickoffS + 3*sc.PhaseS + 3
+	}
+	g0 := int64(sc.GenesisInS) * 1000
+	// a client reads from the target now and then: what it was served must survive the crash
+	for k := 1; k < rounds; k += 2 {
+		sc.Script = append(sc.Script, Act{AtMs: g0 + int64(k)*1000 + 400, Kind: "rand", Node: sc.Crash.Node, A: 0})
+	}
+	sc.HealAtMs = g0 + int64(rounds)*1000
+	sc.Rounds = rounds + 8
+	return sc
 }
